@@ -2,7 +2,8 @@ SPEC = {
     "id": "C28",
     "coq_props": ["Properties/C28.v", "Corr/C28.v"],
     "module": "MS.Properties.C28",
-    "theorems": ["C28_roundtrip", "C28_buffer_fields", "C28_overcount_panics", "C28_refuted", "C28_refuted_many_shapes", "C28_guard_exact"],
+    "theorems": ["C28_roundtrip", "C28_roundtrip_exported", "C28_decoder_total", "C28_buffer_fields", "C28_overcount_panics",
+                 "C28_accepted_encodable", "C28_accepted_roundtrip", "C28_refuted"],
     "corr_require": "Require Import MS.Base.Hex MS.Corr.C28.",
     "agrees": "C28.agrees",
     "in_domain": "C28.in_domain",
@@ -32,11 +33,13 @@ SPEC = {
         "filepath.Join is modelled for Unix separators (no volume names)",
     ],
     "level": "proof",
-    "level_text": "Coq theorem C28_roundtrip: for EVERY tgID, root and list of encodable write commands (path < 2^15, payload < 2^31, VarRecLen int32, "
-                  "1..255 shapes, names <= 255 bytes) ParseTGData(serializeTG(...)) returns the id and exactly the given record type, target file, "
-                  "offset, index, payload and schema per command (induction over the command list with a cursor invariant; C28_buffer_fields for the "
-                  "oib accessors). C28_refuted / C28_refuted_many_shapes exhibit the two uint8-wrap defects outside the guard, C28_guard_exact shows the "
-                  "guard excludes nothing else; both witnesses are replayed on the real code, also through the real write path.",
+    "level_text": "Coq theorems: C28_roundtrip (for EVERY tgID, root and list of encodable write commands the checked decoder behind ParseTGData "
+                  "returns the id and exactly the given record type, target file, offset, index, payload and schema per command; induction over the "
+                  "command list with a cursor invariant) and C28_accepted_roundtrip: every write ACCEPTED by the write path (Go typing + "
+                  "CheckStorable at bucket creation, fix d005c52: names <= 32 bytes) with at most 255 data shapes round-trips — the name half of "
+                  "the statement as given is now a theorem. C28_decoder_total: the decoder (fix afc5bfc) never indexes out of range. "
+                  "C28_refuted exhibits the remaining uint8 wrap (256+ data shapes; the header accepts 1024 elements), replayed on the real "
+                  "code also through the real write path.",
     "level_note": "No axioms. Trusted: Coq kernel/VM, gen translator, harness. Modelled not verified: executor/wal.go serializeTG, ParseTGData, "
                   "walKeyToFullPath; utils/io/datashape.go toBytes, dsFromBytes, DSVToBytes, DSVFromBytes; utils/io Serialize/To<Int> for the "
                   "integer widths used; executor/wal/oib.go accessors.",
